@@ -9,6 +9,7 @@ import SqlLineage.IO.Graph
 import SqlLineage.IO.Sql
 import SqlLineage.IO.PathSec
 import SqlLineage.IO.Names
+import SqlLineage.IO.Split
 
 open Lean
 
@@ -30,7 +31,10 @@ def handlers : List (String × (Json → Except String Json)) := [
   ("namesOf", SqlLineage.IO.Names.handleOf),
   ("namesSrc", SqlLineage.IO.Names.handleSrc),
   ("namesSites", SqlLineage.IO.Names.handleSites),
-  ("namesEq", SqlLineage.IO.Names.handleEq)
+  ("namesEq", SqlLineage.IO.Names.handleEq),
+  ("splitlex", SqlLineage.IO.Split.handleLex),
+  ("split", SqlLineage.IO.Split.handleSplit),
+  ("splitscript", SqlLineage.IO.Split.handleScript)
 ]
 
 def handleLine (line : String) : String :=
